@@ -29,6 +29,7 @@ def results(out):
 
 def main():
     prop, n, deliv, wt = sys.argv[1:5]
+    feat = (" --features " + sys.argv[5]) if len(sys.argv) > 5 else ""     # demonstration needs a non-default feature
     sid = "%s-%s" % (prop, n)
     patch = open(os.path.join(deliv, "patch.diff")).read()
     rc, cur = sh("git diff -- src", wt)
@@ -48,10 +49,10 @@ def main():
     os.rename(os.path.join(wt, "seed_demo.rs.hold"), os.path.join(wt, "tests", "seed_demo.rs"))
     res = results(out)
     suite_ok = rc == 0 and any(r == ("ok", "51", "0") for r in res) and all(r[0] == "ok" for r in res)
-    rc1, out1 = sh("cargo test --test seed_demo --offline 2>&1", wt)
+    rc1, out1 = sh("cargo test --test seed_demo --offline%s 2>&1" % feat, wt)
     demo_with = results(out1)
     sh("git stash push -q -- src", wt)
-    rc2, out2 = sh("cargo test --test seed_demo --offline 2>&1", wt)
+    rc2, out2 = sh("cargo test --test seed_demo --offline%s 2>&1" % feat, wt)
     demo_without = results(out2)
     sh("git stash pop -q", wt)
     ok = suite_ok and rc1 != 0 and rc2 == 0 and demo_without and all(r[0] == "ok" for r in demo_without)
